@@ -645,6 +645,18 @@ def rand_normals(rng, n, shape, cls):
                                      math.sqrt(a0 * a0 + float(w @ w))], w])
             out[ind] = v
         return out
+    elif cls == "integer":
+        # integer-dtype spacelike normals (not normalised, integer storage:
+        # in-place normalisation cannot happen) -- seeded change C15-2
+        out = np.empty(tuple(shape) + (n + 1,), dtype=np.int64)
+        for ind in (np.ndindex(*shape) if shape else [()]):
+            while True:
+                w = rng.integers(-4, 5, size=n + 1)
+                q = -w[0] * w[0] + int(np.sum(w[1:] * w[1:]))
+                if q >= max(2, 0.15 * int(np.sum(w * w))):
+                    break
+            out[ind] = w
+        return out
     else:
         raise ValueError(cls)
     v = np.concatenate([a, u], axis=-1)
@@ -695,7 +707,7 @@ def conjugate(C, S, how):
 # ---------------------------------------------------------------------------
 # workloads: walls
 
-WALL_CLASSES = ["bulk", "lightlike-kernel", "through-origin", "far", "axis", "bulk"]
+WALL_CLASSES = ["bulk", "lightlike-kernel", "through-origin", "far", "axis", "integer"]
 
 
 def check_wall_data(run, H, v, sig, case):
